@@ -258,6 +258,21 @@ LastIdx(members, name) ==
   LET S == {j \in 1..Len(members) : members[j].key = name} IN
   IF S = {} THEN 0 ELSE CHOOSE j \in S : \A m \in S : m <= j
 
+\* Plain projection of the zero value of a type
+RECURSIVE ZeroPlain(_)
+ZeroPlain(T0) ==
+  LET T == Resolve(T0) IN
+  CASE T.k = "bool" -> EvBool(FALSE)
+    [] T.k = "string" -> EvStr(<<>>)
+    [] T.k = "float32" -> EvF32(<<0, 0, 0, 0>>)
+    [] T.k = "float64" -> EvF64(<<0, 0, 0, 0, 0, 0, 0, 0>>)
+    [] T.k \in ScalarKinds -> EvInt(CZero)
+    [] T.k \in {"ptr", "iface"} -> EvNil
+    [] T.k = "slice" -> VArr(<<>>)
+    [] T.k = "array" -> VArr([j \in 1..T.n |-> ZeroPlain(T.e[1])])
+    [] T.k = "map" -> VObj(<<>>, TRUE)
+    [] T.k = "struct" -> VObj([j \in 1..Len(T.f) |-> [key |-> <<j>>, val |-> ZeroPlain(T.f[j].t)]], FALSE)
+    [] OTHER -> EvNil
 RECURSIVE Exp(_, _, _), ExpFields(_, _, _)
 ZeroLeafOld(old) == old
 Exp(T0, old, sv) ==
@@ -265,7 +280,7 @@ Exp(T0, old, sv) ==
   CASE T0.k = "named" /\ T0.id \in {"FoldT", "FoldObj", "ZeroT", "ZeroP"} -> Unspec
     [] T.k = "iface" -> sv                                   \* generic data: the stream's value itself
     [] T.k = "ptr" -> IF sv.k = "nil" THEN EvNil
-                      ELSE IF old.nil THEN Exp(T.e[1], [k |-> "fresh"], sv) ELSE Exp(T.e[1], old.e[1], sv)
+                      ELSE IF old.k = "fresh" \/ old.nil THEN Exp(T.e[1], [k |-> "fresh"], sv) ELSE Exp(T.e[1], old.e[1], sv)
     [] T.k = "bool" -> IF sv.k = "bool" THEN sv ELSE Unspec
     [] T.k = "string" -> IF sv.k = "str" THEN sv ELSE Unspec
     [] T.k \in {"float32", "float64"} ->
@@ -286,21 +301,13 @@ ExpFields(T, old, sv) ==
   [j \in 1..Len(T.f) |->
      LET f == T.f[j]
          o == IF old.k = "fresh" THEN [k |-> "fresh"] ELSE old.f[j]
-         keep == IF old.k = "fresh" THEN [k |-> "zero"] ELSE Plain(f.t, old.f[j]) IN
+         keep == IF old.k = "fresh" THEN ZeroPlain(f.t) ELSE Plain(f.t, old.f[j]) IN
      [key |-> <<j>>,
       val |-> IF Skipped(f) THEN keep
               ELSE IF IsInline(f) THEN (IF Resolve(f.t).k = "struct" THEN Exp(f.t, o, sv) ELSE Unspec)
               ELSE LET m == LastIdx(sv.v, FName(f)) IN
                    IF m = 0 THEN keep ELSE Exp(f.t, o, sv.v[m].val)]]
 
-\* comparison of an expected Plain tree with the Plain projection of the result:
-\* [k |-> "zero"] matches any zero value of a fresh variable
-RECURSIVE PlainMatch(_, _, _, _)
-PlainMatch(R, want, T0, r) ==
-  LET T == Resolve(T0) IN
-  CASE want.k = "zero" -> IsZeroV(T0, r)
-    [] want.k = "obj" /\ T.k = "struct" ->
-         \A j \in 1..Len(T.f) : PlainMatch(R, want.v[j].val, T.f[j].t, r.f[j])
-    [] T.k = "ptr" -> IF want.k = "nil" THEN r.nil ELSE ~r.nil /\ PlainMatch(R, want, T.e[1], r.e[1])
-    [] OTHER -> Equiv(R, want, Plain(T0, r))
+\* comparison of an expected Plain tree with the Plain projection of the result
+PlainMatch(R, want, T0, r) == Equiv(R, want, Plain(T0, r))
 =============================================================================
